@@ -1,7 +1,7 @@
 #!/bin/bash
 # regenerates the per-package copies of common.go.tmpl (Go needs one copy per package under test)
 cd "$(dirname "$0")" || exit 2
-for p in pppdisp:disp ppp:ppp pppoe:tags l2tp:l2tp dhcp6:dhcp6 relay:relay dhcp:dhcp dhcp4:dhcp4 ipoe:ipoe pppoe:sess radius:radius shm:shm local:local; do
+for p in pppdisp:disp ppp:ppp pppoe:tags l2tp:l2tp dhcp6:dhcp6 relay:relay dhcp:dhcp dhcp4:dhcp4 ipoe:ipoe pppoe:sess radius:radius shm:shm local:local l2tp:il2tp; do
   pkg="${p%%:*}"; name="${p##*:}"
   sed "s/@@PKG@@/$pkg/" common.go.tmpl > "zz_verif_c07_common_${name}_test.go"
 done
